@@ -22,9 +22,9 @@ def one(sid):
     tmp = tempfile.mkdtemp(prefix=f"seedmx-{sid}-")
     try:
         os.makedirs(f"{tmp}/src")
-        shutil.copytree("/repo/src/lian", f"{tmp}/src/lian", ignore=shutil.ignore_patterns("__pycache__", "*.so"))
-        if os.path.isdir("/repo/default_settings"):
-            shutil.copytree("/repo/default_settings", f"{tmp}/default_settings")
+        shutil.copytree(os.environ.get("SEED_SRC", "/repo") + "/src/lian", f"{tmp}/src/lian", ignore=shutil.ignore_patterns("__pycache__", "*.so"))
+        if os.path.isdir(os.environ.get("SEED_SRC", "/repo") + "/default_settings"):
+            shutil.copytree(os.environ.get("SEED_SRC", "/repo") + "/default_settings", f"{tmp}/default_settings")
         r = sh(f"patch -p1 -s -d {tmp} < {V}/seeded/{sid}/patch.diff")
         if r.returncode != 0:
             return sid, {"error": "patch does not apply: " + (r.stdout + r.stderr)[-300:]}
